@@ -176,7 +176,13 @@ def check_case(case):
         viol.append(Viol(dict(sig, kind="alpha_max-value", zero_weights=bool(len(unpen))),
                          f"library alpha_max = {lib_amax!r} but max_j |g_j|/weight_j over penalised features (critical strength) = {ref_amax!r}; penalty {spec}"))
         return result(viol, True, classes)
-    if ref_amax <= 1e-12 * (1 + float(np.max(np.abs(y)))):
+    # gradient at the null model that is pure round-off (columns collinear with the unpenalised part): Cauchy-Schwarz
+    # scale of the sums that cancel
+    if kind == "multitask":
+        cs = float(np.max(np.linalg.norm(X, axis=0)) * np.linalg.norm(eta0 - y) / n)
+    else:
+        cs = float(np.max(np.linalg.norm(X, axis=0)) * np.linalg.norm(loss.grad(y, eta0)))
+    if ref_amax <= 1e-12 * (1 + float(np.max(np.abs(y)))) or ref_amax <= 1e-7 * cs:
         return result([], False, classes + ["zero-alpha_max(degenerate)"])
     eps = case["eps"]
     alpha = ref_amax * (1 + eps) if case["side"] == "above" else ref_amax * (1 - eps)
@@ -200,15 +206,18 @@ def check_case(case):
         return result([], False, classes + [f"exception:{type(out.exc).__name__}(C13)"])
     if not (out.stop <= tol):
         # No iteration-count oracle in general.  One exception: above alpha_max with an intercept as the only
-        # unpenalised part, the cold start w = 0 already has the optimal coefficients and what remains is a smooth
-        # convex problem in ONE variable (the intercept), which the reference solves by a few Newton steps (eta0).
-        # A run that spends its whole budget (>= 100 outer x 500 inner iterations) and still predicts far from the
-        # null model does not "return the optimal unpenalised part".
+        # unpenalised part, a run that returns all-zero coefficients had a smooth convex problem in ONE variable (the
+        # intercept) left, which the reference solves by a few Newton steps (eta0).  Spending the whole budget
+        # (>= 100 outer x 500 inner iterations) there and still predicting far from the null model is not "returning
+        # the optimal unpenalised part".
         if case["side"] == "above" and fi and not len(unpen) and out.w is not None and np.all(np.isfinite(np.asarray(out.w, float))):
             W = np.asarray(out.w, float)
             eta = X @ W[:p] + W[p]
             dev = float(np.max(np.abs(eta - eta0)))
-            if dev > 1e-2 * (1 + float(np.max(np.abs(eta0)))):
+            # only when the run ENDS with all penalised coefficients at zero: then the whole budget was spent on the
+            # one-dimensional intercept problem (coordinate descent that is still shrinking a transient coefficient
+            # on a design nearly collinear with the intercept is merely slow: inconclusive)
+            if not np.any(W[:p]) and dev > 1e-2 * (1 + float(np.max(np.abs(eta0)))):
                 return result([Viol(dict(sig, kind="null-model-not-reached"),
                                     f"{solver}: alpha = alpha_max*(1+{eps}): after the full budget (stop_crit={out.stop:.2e} > tol) the fit predicts "
                                     f"{eta.ravel()[:3].tolist()} but the loss-minimising intercept-only model predicts {eta0.ravel()[:3].tolist()}")],
@@ -225,6 +234,8 @@ def check_case(case):
         nz = np.any(np.abs(coef[pen_idx]) > 1e3 * tol)
     else:
         nz = np.any(coef[pen_idx] != 0)
+    if case["side"] == "below":
+        nz = np.any(coef[pen_idx] != 0)      # "returns a non-zero coefficient": any, however small (eps * alpha_max / L)
     if case["side"] == "above":
         if nz:
             j = int(pen_idx[np.argmax(np.abs(coef[pen_idx]).reshape(len(pen_idx), -1).max(1))])
